@@ -13,12 +13,12 @@ definitions incl. redefinition/recursion/nesting, locals incl. re-initialisation
 same error kind at exactly the same token (and stack agreeing up to the failing word's arity) on failure; a structurally infinite loop must never fall through (bounded: 40*B+64 instructions, marker after the loop must not print). \
 Non-trivial = >=2 nested control constructs, or a loop with >=1 iteration, or a call; distinct = hash of the rendered sources",
     assumptions: &[
-        "model step budget B = 2000 (quick) / 20000 (thorough); programs that exhaust it outside a structurally infinite loop are inconclusive (counted)",
+        "model step budget B = 2000 (quick) / 5000 (thorough); programs that exhaust it outside a structurally infinite loop are inconclusive (counted)",
         "primitive meanings follow the behaviour pinned by the repository's tests (rot exchanges 1st and 3rd, case leaves the selector for the default part)",
     ],
     max_len: 700,
     quick_cases: 160_000,
-    thorough_cases: 1_200_000,
+    thorough_cases: 600_000,
     case,
     systematic: None,
     both_profiles_quick: false,
@@ -61,7 +61,7 @@ pub fn case(ch: &mut Choices, ctx: &CaseCtx) -> CaseOut {
     let mut out = CaseOut::default();
     let opts = if ctx.tier_thorough { GenOpts::thorough() } else { GenOpts::quick() };
     let p = generate(ch, opts);
-    let budget: u64 = if ctx.tier_thorough { 20_000 } else { 2_000 };
+    let budget: u64 = if ctx.tier_thorough { 5_000 } else { 2_000 };
     run_and_compare(&p, budget, &mut out);
     // classification
     let f = &p.features;
